@@ -59,7 +59,14 @@ RULE = ('metainfo objects = valid torrents from the C05 grammar turned into Pyth
         'inside tuples), aliasing (one object at two positions) and fork (t = t.copy(), the untouched original is watched). '
         'First stream, additionally: write() of every document in 4 of 26 worlds where the OS refuses or takes fewer bytes '
         '(real RLIMIT_FSIZE = k around the size of dump(), injected ENOSPC after k bytes / EIO at close / EACCES at open, '
-        'symlink to a private full-device node (mknod 1,7), existing file without overwrite)')
+        'symlink to a private full-device node (mknod 1,7), existing file without overwrite)' + '. '
+        'Keys: 14 % of the first stream gets 1-2 keys that are not plain str keys - the bytes twin of an existing str key (b"info" '
+        'next to "info") with another or the same value, other bytes (UTF-8 or not), "" with b"", NFC with NFD, int, bool, None, '
+        'tuple, float, 1 with "1", True with "True", a str subclass - at top level, in info, in a file entry or a nested dict, as '
+        'the first or the last key; histories merge a torrent decoded by a plain bencode parser (bytes keys) into the metainfo and '
+        'set / delete such keys between exports. write() worlds also have prior contents derived from the new content (equal, '
+        'proper prefixes, new + 1 / + 2048 bytes / twice, one byte flipped at start / middle / end, same length, the previous '
+        'export of the object), with and without overwrite, under fitting and non-fitting size limits')
 
 def _m_magnet_restores_name(case, observed, finding):
     """D06a, as narrow as the defect: a history case; the state was reached because magnet() / str(magnet()) itself added
@@ -87,6 +94,9 @@ def ekind(e):
 
 
 # ------------------------------------------------------------------ case encoding (replayable JSON)
+class _StrKey(str):
+    """a str subclass used as a dictionary key"""
+
 
 def enc(v):
     if v is None:
@@ -98,7 +108,7 @@ def enc(v):
     if isinstance(v, float):
         return {'f': v.hex() if math.isfinite(v) else repr(v)}
     if isinstance(v, str):
-        return {'s': v}
+        return {'S': str(v)} if type(v) is not str else {'s': v}
     if isinstance(v, bytes):
         return {'b': v.hex()}
     if isinstance(v, datetime.datetime):
@@ -124,6 +134,8 @@ def dec(j):
         return float.fromhex(v) if v not in ('nan', 'inf', '-inf') else float(v)
     if t == 's':
         return v
+    if t == 'S':
+        return _StrKey(v)
     if t == 'b':
         return bytes.fromhex(v)
     if t == 'D':
@@ -224,6 +236,153 @@ def py_features(v, acc=None):
 
 BATCH = 2500
 
+# ---- keys of every type a mapping allows.  'info' and b'info' are two keys of Torrent.metainfo and would be ONE key of the
+# output; 1 and '1', True and 'True' likewise if keys were str()-ed; 'caf\xe9' and 'cafe\u0301' are two str keys (and two output
+# keys) unless somebody normalises.  The converter takes str keys only and raises for everything else; whatever it does, an
+# export that returns must have emitted every key of every dict exactly once (checked by _faithful against the strict parser).
+KEY_KINDS = ['bytes-twin', 'bytes-twin', 'bytes-twin', 'bytes-twin-same', 'bytes-plain', 'bytes-nonutf8', 'nfc-nfd', 'int', 'bool',
+             'none', 'tuple', 'float', 'int-and-str', 'bool-and-str', 'str-subclass', 'empty-bytes-and-str']
+
+
+def _variant(v):
+    """a value of the same shape that encodes differently"""
+    import copy
+    if isinstance(v, dict):
+        w = copy.deepcopy(v)
+        if isinstance(w.get('name'), str):
+            w['name'] = w['name'] + ' (other)'
+        else:
+            w['x-other'] = 1
+        return w
+    if isinstance(v, str):
+        return v + 'x'
+    if isinstance(v, bytes):
+        return v + b'x'
+    if isinstance(v, bool):
+        return not v
+    if isinstance(v, int):
+        return v + 1
+    if isinstance(v, (list, tuple)):
+        return list(v) + ['other']
+    return 'other'
+
+
+def _insert(d, key, value, first):
+    """d[key] = value as the last key, or rebuilt so that it is the first one (which of two colliding keys is the later one
+    decides who wins in an implementation that merges them)"""
+    if not first:
+        d[key] = value
+        return
+    items = [(key, value)] + [(k, v) for k, v in d.items() if not (k == key and type(k) is type(key))]
+    d.clear()
+    d.update(items)
+
+
+def add_key_types(r, m):
+    """insert 1-2 keys that are not plain str keys (or are twins of one) into the metainfo; returns the list of what was done"""
+    import copy
+    done = []
+    for _ in range(r.choice([1, 1, 2])):
+        kind = r.choice(KEY_KINDS)
+        info = m.get('info')
+        places = [('top', m)]
+        if isinstance(info, dict):
+            places += [('info', info)] * 2 + [('file', f) for f in info.get('files', []) if isinstance(f, dict)][:1]
+            places += [('nested', v) for v in info.values() if isinstance(v, dict)][:1]
+        where, d = r.choice(places)
+        first = r.random() < 0.4
+        val = rpy(r, 2)
+        if kind in ('bytes-twin', 'bytes-twin-same'):
+            ks = [k for k in d if type(k) is str]
+            if not ks:
+                continue
+            k = 'info' if where == 'top' and 'info' in d and r.random() < 0.7 else r.choice(ks)
+            _insert(d, k.encode('utf8', 'surrogatepass'), copy.deepcopy(d[k]) if kind.endswith('same') else _variant(d[k]), first)
+        elif kind == 'bytes-plain':
+            _insert(d, r.choice([b'bk', b'zz', b'\xc3\xa9']), val, first)
+        elif kind == 'bytes-nonutf8':
+            _insert(d, r.choice([b'\xff\xfe', b'\x80']), val, first)
+        elif kind == 'nfc-nfd':
+            _insert(d, 'caf\xe9', val, first)
+            _insert(d, 'cafe\u0301', _variant(val), r.random() < 0.5)
+        elif kind == 'int':
+            _insert(d, r.choice([0, 1, 42, -1]), val, first)
+        elif kind == 'bool':
+            _insert(d, r.random() < 0.5, val, first)
+        elif kind == 'none':
+            _insert(d, None, val, first)
+        elif kind == 'tuple':
+            _insert(d, r.choice([('a',), (), ('info',), (1, 'b')]), val, first)
+        elif kind == 'float':
+            _insert(d, r.choice([1.0, 0.5]), val, first)
+        elif kind == 'int-and-str':
+            _insert(d, '1', val, first)
+            _insert(d, 1, _variant(val), r.random() < 0.5)
+        elif kind == 'bool-and-str':
+            _insert(d, 'True', val, first)
+            _insert(d, True, _variant(val), r.random() < 0.5)
+        elif kind == 'str-subclass':
+            _insert(d, _StrKey(r.choice(['sub', 'zz-sub', '\xe9'])), val, first)
+        elif kind == 'empty-bytes-and-str':
+            _insert(d, '', val, first)
+            _insert(d, b'', _variant(val), r.random() < 0.5)
+        done.append('%s/%s/%s' % (kind, where, 'first' if first else 'last'))
+    return done
+
+
+def _faithful(mj, pv, path='metainfo'):
+    """Independent of the model: does the strictly parsed output `pv` have, for the metainfo `mj` (tagged JSON of the Python
+    value), at every dict exactly one entry per key of the Python dict, under the key's bytes, and the leaf values stored under
+    those keys?  Returns None or (what, detail).  Key bytes: str -> UTF-8, bytes -> themselves; a key of any other type cannot
+    be in an output at all."""
+    t = mj.get('t')
+    if t == 'd':
+        if not isinstance(pv, dict):
+            return ('the output has no dictionary where the metainfo has one', path)
+        kbs = []
+        for k, _ in mj['v']:
+            if k.get('t') == 's':
+                try:
+                    kbs.append(k['v'].encode('utf8'))
+                except UnicodeEncodeError:
+                    return None
+            elif k.get('t') == 'b':
+                kbs.append(bytes.fromhex(k['v']))
+            else:
+                return ('an export returned although the dictionary %s has a key that is neither str nor bytes' % path,
+                        {'key': k, 'output keys': [x.hex() for x in pv]})
+        dup = sorted({kb for kb in kbs if kbs.count(kb) > 1})
+        if dup:
+            both = [k for k, _ in mj['v'] if (k['v'].encode('utf8') if k['t'] == 's' else bytes.fromhex(k['v'])) == dup[0]]
+            return ('two different keys of the dictionary %s are ONE key in the output: one of the two values is dropped silently'
+                    % path, {'keys of the metainfo': both, 'output key': dup[0].hex(), 'entries in the metainfo': len(kbs),
+                             'entries in the output': len(pv)})
+        if set(kbs) != set(pv):
+            return ('the keys of the output are not the keys of the dictionary %s' % path,
+                    {'missing in the output': [x.hex() for x in sorted(set(kbs) - set(pv))],
+                     'not in the metainfo': [x.hex() for x in sorted(set(pv) - set(kbs))]})
+        for (k, v), kb in zip(mj['v'], kbs):
+            bad = _faithful(v, pv[kb], '%s[%s]' % (path, repr(k['v']) if k['t'] == 's' else 'bytes ' + k['v']))
+            if bad:
+                return bad
+        return None
+    if t in ('l', 'u'):
+        if not isinstance(pv, list) or len(pv) != len(mj['v']):
+            return ('the output has no list of the same length where the metainfo has one', path)
+        for i, (v, x) in enumerate(zip(mj['v'], pv)):
+            bad = _faithful(v, x, '%s[%d]' % (path, i))
+            if bad:
+                return bad
+        return None
+    try:
+        exp = (mj['v'].encode('utf8') if t == 's' else bytes.fromhex(mj['v']) if t == 'b' else pyval._str_int(mj['v']) if t == 'i'
+               else int(mj['v']) if t == 'B' else None)
+    except UnicodeEncodeError:
+        return None
+    if exp is not None and (type(pv) is not type(exp) or pv != exp):
+        return ('the value emitted at %s is not the value stored there' % path, {'stored': _short(mj, 120), 'emitted': _short(pv, 120)})
+    return None
+
 
 def gen_cases(ctx, n_docs):
     r = ctx.rng
@@ -242,6 +401,8 @@ def gen_cases(ctx, n_docs):
         elif k < 0.16:
             opts['nopieces'] = True
             kind = 'validate-refuses'
+        elif k < 0.30:
+            kind = 'key-types'
         md = gen.metainfo(r, opts)
         m = pyify(r, md)
         if 'creation date' in m and r.random() < 0.5:
@@ -258,8 +419,9 @@ def gen_cases(ctx, n_docs):
             if key.encode() in gen.RESERVED_TOP | gen.RESERVED_INFO | {b'path'}:
                 continue
             tgt[key] = rpy(r, 0, bad)
+        keys = add_key_types(r, m) if kind == 'key-types' else []
         validate = r.random() < 0.85
-        cases.append({'m': enc(m), 'validate': validate, 'kind': kind, 'worlds': r.sample(WORLDS, 4)})
+        cases.append({'m': enc(m), 'validate': validate, 'kind': kind, 'keys': keys, 'worlds': r.sample(WORLDS, 3) + r.sample(DERIVED_WORLDS, 2)})
     return cases
 
 
@@ -348,14 +510,30 @@ def written_variants(t, V, content):
 #   returns a short count, the next one fails with EFBIG) - independent of how the code opens and writes the file;
 # inject-*: open() of the target path is patched (as harness/props/c17.py does): the file object raises ENOSPC after k bytes,
 #   EIO at close(), or open() itself raises; devfull: the path is a symlink to /dev/full (every write(2) fails with ENOSPC).
+# prior content DERIVED from the new content (an implementation may look at what is there before it writes): the list of
+# harness/props/c17.py (equal; proper prefixes; new + 1 byte / + many / twice; one byte flipped at the start / middle / end;
+# same length, other bytes) plus the previous export of the same object before an edit of the comment.  In the model these
+# are just other values of the node's content: C06_write_exact_or_error quantifies over all of them.
+DERIVED_OLD = ['eq', 'prefix:1', 'prefix:half', 'prefix:len-1', 'plus:1', 'plus:many', 'plus:self', 'flip:start', 'flip:mid',
+               'flip:end', 'samelen', 'prev']
+
+
 WORLDS = ([{'w': 'fsize', 'k': k, 'old': old} for k in (['abs', 0], ['abs', 1], ['frac', 0.5], ['rel', -1], ['rel', 0], ['rel', 10])
            for old in (None, 'longer')] +
           [{'w': 'inject-write', 'k': k, 'old': old} for k in (['abs', 0], ['frac', 0.5], ['rel', -1]) for old in (None, 'longer')] +
           [{'w': 'inject-close', 'old': None}, {'w': 'inject-close', 'old': 'longer'}, {'w': 'inject-open', 'old': None},
            {'w': 'devfull'}, {'w': 'exists-no-overwrite', 'old': 'longer'}, {'w': 'exists-no-overwrite', 'old': 'shorter'}])
+# no fault at all, the path holds something derived from the new content (overwrite=True); or the same without permission to
+# overwrite (WriteError, untouched); or with a size limit that just fits / does not fit / a failing close()
+DERIVED_WORLDS = ([{'w': 'overwrite', 'old': old} for old in DERIVED_OLD] +
+                  [{'w': 'exists-no-overwrite', 'old': 'eq'}, {'w': 'exists-no-overwrite', 'old': 'plus:1'},
+                   {'w': 'fsize', 'k': ['rel', 0], 'old': 'plus:self'}, {'w': 'fsize', 'k': ['frac', 0.5], 'old': 'eq'},
+                   {'w': 'fsize', 'k': ['rel', -1], 'old': 'plus:1'}, {'w': 'inject-close', 'old': 'eq'}])
+WORLDS = WORLDS + DERIVED_WORLDS
 DEFAULT_WORLDS = [{'w': 'fsize', 'k': ['frac', 0.5], 'old': None}, {'w': 'fsize', 'k': ['rel', -1], 'old': 'longer'},
                   {'w': 'fsize', 'k': ['rel', 0], 'old': None}, {'w': 'inject-close', 'old': None},
-                  {'w': 'exists-no-overwrite', 'old': 'longer'}]
+                  {'w': 'exists-no-overwrite', 'old': 'longer'}, {'w': 'overwrite', 'old': 'plus:1'},
+                  {'w': 'overwrite', 'old': 'plus:self'}, {'w': 'overwrite', 'old': 'eq'}, {'w': 'overwrite', 'old': 'flip:end'}]
 
 
 def _world_k(w, n):
@@ -363,19 +541,39 @@ def _world_k(w, n):
     return max(0, v if kind == 'abs' else int(n * v) if kind == 'frac' else n + v)
 
 
-def _world_old(w, n):
-    return {None: None, 'longer': b'z' * (n + 23), 'shorter': b'old'}[w.get('old')]
+def _world_old(w, content, prev=None):
+    from harness.props import c17 as _c17
+    name = w.get('old')
+    n = len(content) if content is not None else 50
+    if name in (None, 'longer', 'shorter'):
+        return {None: None, 'longer': b'z' * (n + 23), 'shorter': b'old'}[name]
+    if name == 'prev':
+        return prev if prev is not None else _c17.OLD
+    return _c17.prior_bytes(name, content if content is not None else _c17.OLD)
 
 
 def faulty_worlds(t, V, content, worlds):
     """Torrent.write() in every given world: [outcome, what the path holds afterwards (hex | None = nothing | 'special')]"""
     from harness.props import c17 as _c17
     n = len(content) if content is not None else 50              # content: the bytes dump() returned (None: it raised)
+    prev = None
+    if any(w.get('old') == 'prev' for w in worlds):
+        # what this object exported before its comment was edited (an overwrite of the previous version of the same torrent)
+        mi, had = t.metainfo, 'comment' in t.metainfo
+        saved = mi.get('comment')
+        try:
+            mi['comment'] = 'previous comment, a little longer than the new one' if not had else 'p'
+            prev = _attempt(lambda: t.dump(validate=False)).get('ok')
+        finally:
+            if had:
+                mi['comment'] = saved
+            else:
+                del mi['comment']
     out = []
     for wi, w in enumerate(worlds):
         _SEQ[0] += 1
         path = os.path.join(common.worker_dir(), 'c06w-%d-%d.torrent' % (os.getpid(), _SEQ[0]))
-        old = _world_old(w, n) if w['w'] != 'devfull' else None
+        old = _world_old(w, content, prev) if w['w'] != 'devfull' else None
         try:
             if w['w'] == 'devfull':
                 # a private "full" device node next to the link, never the system's /dev/full: a change under test that
@@ -426,11 +624,24 @@ def _world_model_req(w, o):
     return req
 
 
+def _old_name(w):
+    return {None: 'nothing', 'longer': 'a longer unrelated file', 'shorter': 'a shorter unrelated file', 'eq': 'exactly the new content',
+            'prefix:1': 'the first byte of the new content', 'prefix:half': 'the first half of the new content',
+            'prefix:len-1': 'the new content without its last byte', 'plus:1': 'the new content followed by one more byte',
+            'plus:many': 'the new content followed by 2048 more bytes', 'plus:self': 'the new content twice',
+            'flip:start': 'the new content with its first byte changed', 'flip:mid': 'the new content with a byte in the middle changed',
+            'flip:end': 'the new content with its last byte changed', 'samelen': 'other bytes of the same length',
+            'prev': 'the previous export of this object (before its comment was edited)'}[w.get('old')]
+
+
 def _world_name(w, o):
     if w['w'] == 'fsize':
-        return 'RLIMIT_FSIZE = %d bytes (SIGXFSZ ignored), path %s' % (o['k'], 'holds a longer file' if o['old'] else 'is new')
+        return 'RLIMIT_FSIZE = %d bytes (SIGXFSZ ignored), the path holds: %s' % (o['k'], _old_name(w))
     if w['w'] == 'inject-write':
-        return 'the opened file raises ENOSPC after %d bytes, path %s' % (o['k'], 'holds a longer file' if o['old'] else 'is new')
+        return 'the opened file raises ENOSPC after %d bytes, the path holds: %s' % (o['k'], _old_name(w))
+    if w['w'] in ('overwrite', 'exists-no-overwrite', 'inject-close'):
+        return {'overwrite': 'overwrite=True, no fault', 'exists-no-overwrite': 'overwrite=False',
+                'inject-close': 'close() of the opened file raises EIO'}[w['w']] + ', the path holds: ' + _old_name(w)
     return {'inject-close': 'close() of the opened file raises EIO', 'inject-open': 'open() raises EACCES',
             'devfull': 'the path is a symlink to a private full-device node', 'exists-no-overwrite': 'the path holds a file, overwrite=False'}[w['w']]
 
@@ -490,7 +701,7 @@ def evaluate(ctx, drv, cases):
     hash_reqs = []
     hash_idx = {}
     for i, (c, o, m) in enumerate(zip(cases, obs_all, replies)):
-        case = {'m': c['m'], 'validate': c['validate'], 'kind': c['kind'], 'worlds': c.get('worlds', DEFAULT_WORLDS)}
+        case = {'m': c['m'], 'validate': c['validate'], 'kind': c['kind'], 'keys': c.get('keys'), 'worlds': c.get('worlds', DEFAULT_WORLDS)}
         dumped = 'ok' in o['dump']
         feats = set(o['feats'])
         nontrivial = dumped and c['validate'] and bool(feats)
@@ -498,6 +709,8 @@ def evaluate(ctx, drv, cases):
                  kind=c['kind'] + ('/dumped' if dumped else '/refused') + ('' if c['validate'] else '/novalidate'))
         for f in feats:
             ctx.dist['feature:' + f] += 1
+        for kk in c.get('keys') or []:
+            ctx.dist['key-types/%s/%s' % (kk.split('/')[0], 'exported' if dumped else 'refused')] += 1
         if nontrivial:
             ctx.sample({'case': {'validate': c['validate'], 'kind': c['kind'], 'm': _short(c['m'], 300)},
                         'dump': o['dump']['ok'][:200], 'infohash': o['infohash']})
@@ -511,6 +724,12 @@ def evaluate(ctx, drv, cases):
             except bstrict.NonCanonical as e:
                 bad = ('dump() is not canonical bencoding: %s' % e, o['dump']['ok'][:400])
                 top = None
+            if bad is None:
+                # every key of every dict of the metainfo exactly once in the output, under its own bytes
+                kf = _faithful(o['mjson'], top)
+                if kf:
+                    bad = (kf[0] + ' - dump() is not the encoding of the metainfo the hash is calculated from',
+                           {'detail': kf[1], 'infohash': o['infohash'], 'dump': o['dump']['ok'][:300]})
             if bad is None and o['write_stream'] != o['dump']:
                 bad = ('write_stream() output differs from dump()', _short(o['write_stream']))
             if bad is None:
@@ -1054,6 +1273,23 @@ def _gen_edit(r):
     return ['generate', {'single': r.random() < 0.3, 'files': files, 'tag': r.randrange(256)}]
 
 
+HKEYS = [{'b': b'info'.hex()}, {'b': b'name'.hex()}, {'b': b'pieces'.hex()}, {'b': b'piece length'.hex()}, {'b': b'source'.hex()},
+         {'b': b'comment'.hex()}, {'b': b'x-extra'.hex()}, {'b': 'fffe'}, {'b': ''}, {'i': '1'}, {'s': '1'}, {'B': True}, {'s': 'True'},
+         {'n': 1}, {'u': [{'s': 'a'}]}, {'f': (1.0).hex()}, {'S': 'sub'}, {'s': 'caf\xe9'}, {'s': 'cafe\u0301'}]
+
+
+def _key_edit(r):
+    q = r.random()
+    if q < 0.2:
+        return ['merge-raw', r.randrange(2), r.choice(['top', 'top', 'info'])]
+    key = r.choice(HKEYS)
+    where = 'top' if key == HKEYS[0] or (r.random() < 0.3 and key != HKEYS[1]) else r.choice(['info', 'info', 'file'])
+    if q < 0.35:
+        return ['del-key', where, key]
+    twin = 'b' in key and key['b'] not in ('fffe', '') and r.random() < 0.8
+    return ['set-key', where, key, 'twin' if twin else enc(rpy(r, 2)), r.random() < 0.4]
+
+
 def _inplace_edit(r, where=None):
     where = where or r.choice(['path', 'path', 'files', 'info', 'info', 'info', 'top', 'any'])
     return ['inplace', {'where': where, 'pick': r.randrange(1000), 'act': r.randrange(1000), 'val': r.randrange(1000)}]
@@ -1115,14 +1351,20 @@ def history_cases(ctx, n):
                     plan.append([r.choice(ATTRS)])
                 else:
                     plan.append([_inplace_edit(r, 'path')])
+        elif k < 0.63:      # keys that are not plain str keys come and go between exports of a complete torrent
+            plan = [[r.choice([_complete_edit(r, 2), ['assign-metainfo', r.randrange(2)], _gen_edit(r)])]]
+            for _ in range(r.randint(2, 4)):
+                plan.append([_key_edit(r) for _ in range(r.choice([1, 1, 2]))])
+            plan.append([['del-key', w, kk] for w in ('top', 'info') for kk in HKEYS if 's' not in kk][:r.choice([0, 40])])
+            plan = [pl for pl in plan if pl]
         elif k < 0.68:      # path + generate(), content changes on disk, generate() again
             plan = [[_gen_edit(r)], [r.choice(ATTRS)], [r.choice([['touch-content'], ['path-none'], r.choice(INVALIDATE)])],
                     [r.choice([['regenerate'], _gen_edit(r), _complete_edit(r, 2)])]]
         else:
             plan = []
             for _ in range(r.randint(1, 6)):
-                pool = r.choice([INVALIDATE, REPAIR, ATTRS, None, None, 'inplace'])
-                plan.append([_inplace_edit(r) if pool == 'inplace' else r.choice(pool) if pool
+                pool = r.choice([INVALIDATE, REPAIR, ATTRS, None, None, 'inplace', 'keys'])
+                plan.append([_inplace_edit(r) if pool == 'inplace' else _key_edit(r) if pool == 'keys' else r.choice(pool) if pool
                              else r.choice([_complete_edit(r, 2), _complete_edit(r, 2), _gen_edit(r)])
                              for _ in range(r.choice([1, 1, 2]))])
         plan = plan[:r.randint(max(1, len(plan) - 2), len(plan))]
@@ -1297,6 +1539,26 @@ def _apply_edit(torf, t, e, docs, env):
     if op == 'alias':
         env['log'].append(_alias(t.metainfo, e[1]))
         return t
+    if op == 'merge-raw':
+        # fields of a torrent file decoded with a plain bencode parser (bytes keys!) merged into the metainfo
+        raw = _copy.deepcopy(env['bdocs'][e[1]])
+        if e[2] == 'top':
+            t.metainfo.update(raw)
+        else:
+            t.metainfo['info'].update(raw[b'info'])
+        return t
+    if op in ('set-key', 'del-key'):
+        d = t.metainfo if e[1] == 'top' else t.metainfo['info'] if e[1] == 'info' else t.metainfo['info']['files'][0]
+        key = dec(e[2])
+        if op == 'del-key':
+            d.pop(key, None)
+        elif e[3] == 'twin':
+            # the bytes twin of an existing str key (or the str twin of a bytes key), with another value
+            other = key.decode('utf8') if isinstance(key, bytes) else key.encode('utf8')
+            _insert(d, key, _variant(d[other]) if other in d else 'twin without partner', e[4])
+        else:
+            _insert(d, key, dec(e[3]), e[4])
+        return t
     if op == 'nest':
         # a fresh nested structure as an extra field (a top-level ASSIGNMENT; later edits go inside it, in place)
         (t.metainfo['info'] if e[1] == 'info' else t.metainfo)['x-nested'] = _copy.deepcopy(NESTED)
@@ -1407,7 +1669,7 @@ def _run_history_chunk(cases):
             if mag['xl'] is not None:
                 kw['xl'] = mag['xl']
             obs = {'base16': h16, 'stages': []}
-            env = {'dir': os.path.join(common.worker_dir(), 'c06h-%d-%d' % (os.getpid(), ci)), 'n': 0, 'log': []}
+            env = {'dir': os.path.join(common.worker_dir(), 'c06h-%d-%d' % (os.getpid(), ci)), 'n': 0, 'log': [], 'bdocs': bdocs}
             try:
                 origin = c.get('origin', 'magnet')
                 if origin != 'magnet':
@@ -1549,26 +1811,64 @@ def _history_py(c):
     return lines + _history_py_stages(c)
 
 
+def _edit_py(e):
+    """one edit of a history as the Python a user would write (only the entry for this operation is formatted)"""
+    op = e[0]
+    a = e[1] if len(e) > 1 else ''
+    v = _short(e[2], 70) if len(e) > 2 else ''              # encoded values: {'i': '5'} = int 5, {'n': 1} = None, {'b': hex} = bytes
+    dct = {'top': 't.metainfo', 'info': "t.metainfo['info']", 'file': "t.metainfo['info']['files'][0]"}
+    if op == 'copy':
+        return 't = t.copy()'
+    if op == 'update-info':
+        return "t.metainfo['info'][k] = v  for k, v in doc%s.info" % a
+    if op == 'sync-info':
+        return "t.metainfo['info'] completed key by key to doc%s.info (other keys deleted)" % a
+    if op == 'assign-info':
+        return "t.metainfo['info'] = doc%s.info" % a
+    if op == 'assign-metainfo':
+        return 't.metainfo.clear(); t.metainfo.update(doc%s)' % a
+    if op == 'del-info':
+        return "t.metainfo['info'].pop(%r, None)" % a
+    if op == 'set-info':
+        return "t.metainfo['info'][%r] = %s" % (a, v)
+    if op == 'set-top':
+        return "t.metainfo[%r] = %s" % (a, v)
+    if op == 'del-top':
+        return "t.metainfo.pop(%r, None)" % a
+    if op == 'attr':
+        return "t.%s = %s" % (a, v)
+    if op == 'generate':
+        return 't.path = <content %s>; t.generate()' % (a,)
+    if op == 'regenerate':
+        return 't.generate()'
+    if op == 'path-none':
+        return 't.path = None'
+    if op == 'touch-content':
+        return '<one content file grows by a byte>'
+    if op == 'inplace':
+        return 'IN PLACE: one list / dict edit step on a nested container of the metainfo (selector %s)' % (a,)
+    if op == 'alias':
+        return 'ALIAS: an existing nested object placed at a second position (selector %s)' % (a,)
+    if op == 'nest':
+        return "t.metainfo%s['x-nested'] = [['a', 'b'], {'k': ['v', 1], 'm': {'deep': [b'x']}}, [{'in-list': 'd'}]]" % ("['info']" if a == 'info' else '')
+    if op == 'fork':
+        return 'other = t; t = t.copy()   # the history goes on with the copy, `other` is not touched any more'
+    if op == 'merge-raw':
+        return 't.metainfo%s.update(<doc%s%s decoded with a plain bencode parser: bytes keys>)' % (
+            "['info']" if e[2] == 'info' else '', a, '.info' if e[2] == 'info' else '')
+    if op == 'set-key':
+        return '%s[%s] = %s   # inserted as the %s key' % (dct[a], v, 'a value different from its twin' if e[3] == 'twin' else _short(e[3], 50),
+                                                         'first' if e[4] else 'last')
+    if op == 'del-key':
+        return '%s.pop(%s, None)' % (dct[a], v)
+    return repr(e)
+
+
 def _history_py_stages(c):
     lines = []
     for st in c['stages']:
         for e in st['edits']:
-            a = e[1] if len(e) > 1 else ''
-            v = _short(e[2], 70) if len(e) > 2 else ''          # the encoded value ({'i': '5'} = int 5, {'n': 1} = None, ...)
-            fmt = {'copy': 't = t.copy()', 'update-info': "t.metainfo['info'][k] = v  for k, v in doc%s.info" % a,
-                   'sync-info': "t.metainfo['info'] completed key by key to doc%s.info (other keys deleted)" % a,
-                   'assign-info': "t.metainfo['info'] = doc%s.info" % a,
-                   'assign-metainfo': 't.metainfo.clear(); t.metainfo.update(doc%s)' % a,
-                   'del-info': "t.metainfo['info'].pop(%r, None)" % a, 'set-info': "t.metainfo['info'][%r] = %s" % (a, v),
-                   'set-top': "t.metainfo[%r] = %s" % (a, v), 'del-top': "t.metainfo.pop(%r, None)" % a,
-                   'attr': "t.%s = %s" % (a, v), 'generate': 't.path = <content %s>; t.generate()' % (a,),
-                   'regenerate': 't.generate()', 'path-none': 't.path = None',
-                   'touch-content': '<one content file grows by a byte>',
-                   'inplace': 'IN PLACE: one %s step on a nested container of the metainfo (selector %s)' % ('list / dict edit', a),
-                   'alias': 'ALIAS: an existing nested object placed at a second position (selector %s)' % (a,),
-                   'nest': "t.metainfo%s['x-nested'] = [['a', 'b'], {'k': ['v', 1], 'm': {'deep': [b'x']}}, [{'in-list': 'd'}]]" % ("['info']" if a == 'info' else ''),
-                   'fork': 'other = t; t = t.copy()   # the history goes on with the copy, `other` is not touched any more'}
-            lines.append(fmt[e[0]])
+            lines.append(_edit_py(e))
         lines.append('exports: ' + ', '.join(st['order']))
     return lines
 
@@ -1707,7 +2007,11 @@ def evaluate_history(ctx, drv, cases):
                 y = bytes.fromhex(written[0][1])
                 try:
                     top, spans = bstrict.strict_parse(y)
-                    if not (isinstance(top, dict) and b'info' in top):
+                    kf = _faithful(u['mjson'], top)
+                    if kf:
+                        bad = (kf[0] + ' - the written bytes are not the encoding of the metainfo the hash is calculated from',
+                               {'detail': kf[1], 'reported': digests, 'written': written[0][1][:300]})
+                    elif not (isinstance(top, dict) and b'info' in top):
                         bad = ('written bytes have no info dictionary', written[0][1][:200])
                     else:
                         a, b = spans[id(top)][b'info']
